@@ -1,5 +1,6 @@
 (* C15 - proofs about the sender model of Oscore/SenderSeq.v: the Partial IVs put on the wire
    over any sequence of protect / crash-and-restart steps are pairwise distinct. *)
+From Coq Require Import Sorted.
 From LibcoapV Require Import Base.Tactics Oscore.SenderSeq.
 Local Open Scope Z_scope.
 
@@ -47,7 +48,7 @@ Lemma ss_step_inv : forall y d o,
   ss_inv y d -> 0 <= d -> ss_M + d + 1 < 2 ^ 64 -> ss_op_ok o ->
   let '(piv, _, y1) := ss_step y o in
   ss_inv y1 (d + 1) /\ ss_lb y <= ss_lb y1 /\
-  match piv with Some p => ss_lb y <= p < ss_lb y1 | None => True end.
+  match piv with Some p => ss_lb y <= p < ss_lb y1 /\ 0 <= p < ss_seq_max | None => True end.
 Proof.
   intros y d o Hinv Hd Hb Ho.
   destruct o as [|f].
@@ -64,7 +65,7 @@ Proof.
                     ss_seq (ss_cur y) = ss_saved y /\
                     ss_next (ss_cur y) <= ss_seq (ss_cur y) < ss_next (ss_cur y) + ss_freq (ss_cur y)).
       { destruct Hcase as [H|[H|H]]; [left; exact H | right; exact H | lia]. }
-      unfold ss_seq_max in Emax.
+      unfold ss_seq_max in *.
       destruct (ss_seq (ss_cur y) + 1 >? ss_next (ss_cur y)) eqn:Egt.
       * rewrite (Z.mod_small (ss_next (ss_cur y) + ss_freq (ss_cur y))) by lia.
         unfold ss_inv, ss_lb. cbn [ss_cur ss_saved ss_seq ss_next ss_freq].
@@ -92,7 +93,7 @@ Proof.
     destruct Hs as (Hinv1 & Hlb & Hp).
     destruct (IH y1 (d + 1) Hinv1 ltac:(lia) ltac:(lia) Hok') as [Hnd Hall].
     destruct piv as [p|].
-    + split.
+    + destruct Hp as [Hp Hpr]. split.
       * constructor; [|exact Hnd].
         intro Hin. rewrite Forall_forall in Hall. apply Hall in Hin. lia.
       * constructor; [lia|].
@@ -124,4 +125,43 @@ Proof.
   rewrite (Z.mod_small (ss_seq s + 1)) by lia.
   destruct (ss_seq s + 1 >? ss_seq_max) eqn:E; [discriminate|].
   destruct (ss_seq s + 1 >? ss_next s); intros H; inversion H; subst; lia.
+Qed.
+
+(* stronger: the Partial IVs on the wire are strictly increasing, also across restarts, and each
+   is a sequence number a recipient accepts (below OSCORE_SEQ_MAX) *)
+Lemma ss_pivs_sorted_gen : forall ops y d,
+  ss_inv y d -> 0 <= d -> ss_M + d + Z.of_nat (length ops) < 2 ^ 64 ->
+  Forall ss_op_ok ops ->
+  StronglySorted Z.lt (ss_pivs y ops) /\
+  Forall (fun p => ss_lb y <= p /\ 0 <= p < ss_seq_max) (ss_pivs y ops).
+Proof.
+  induction ops as [|o t IH]; intros y d Hinv Hd Hb Hok.
+  - cbn. split; constructor.
+  - cbn [ss_pivs]. inversion Hok as [|? ? Ho Hok']; subst.
+    cbn [length] in Hb. rewrite Nat2Z.inj_succ in Hb.
+    pose proof (ss_step_inv y d o Hinv Hd ltac:(lia) Ho) as Hs.
+    destruct (ss_step y o) as [[piv sv] y1].
+    destruct Hs as (Hinv1 & Hlb & Hp).
+    destruct (IH y1 (d + 1) Hinv1 ltac:(lia) ltac:(lia) Hok') as [Hss Hall].
+    destruct piv as [p|].
+    + destruct Hp as [Hp Hpr]. split.
+      * constructor; [exact Hss|].
+        eapply Forall_impl; [|exact Hall]. cbn. intros a [Ha _]. lia.
+      * constructor; [lia|].
+        eapply Forall_impl; [|exact Hall]. cbn. intros; lia.
+    + split; [exact Hss|].
+      eapply Forall_impl; [|exact Hall]. cbn. intros; lia.
+Qed.
+
+Theorem ss_pivs_increasing : forall freq start ops,
+  0 <= start <= 2 ^ 40 -> ss_freq_ok freq -> Forall ss_op_ok ops ->
+  Z.of_nat (length ops) < 2 ^ 63 ->
+  StronglySorted Z.lt (ss_pivs (ss_boot freq start) ops) /\
+  Forall (fun p => 0 <= p < ss_seq_max) (ss_pivs (ss_boot freq start) ops).
+Proof.
+  intros freq start ops Hs Hf Hok Hlen.
+  assert (Hi : ss_inv (ss_boot freq start) 0).
+  { apply ss_boot_inv; unfold ss_M; try lia. exact Hf. }
+  destruct (ss_pivs_sorted_gen ops _ 0 Hi) as [H1 H2]; unfold ss_M; try lia; [exact Hok|].
+  split; [exact H1|]. eapply Forall_impl; [|exact H2]. cbn. intros a [_ Ha]. exact Ha.
 Qed.
